@@ -65,6 +65,9 @@ def run(ctx):
     r7 = ctx.rule("C17.R7", "MEMO-STATE (effect rule): no memoised function (functools.lru_cache / cache) on the validation path -- schema/validator.py, schema/loader.py, schema/__init__.py, patchset.py, utils.py, workspace.py -- reads, itself or through the package functions it calls, module state that is switched at run time (the schema directory and schema store that `pyhf.schema(path)` swaps, the current backend): what was validated under one schema directory must not decide what is accepted under another", "EFFECT", floor=1)
     r8 = ctx.rule("C17.R8", "SCHEMA-VALUES: the shipped patch-set schema (src/pyhf/schemas/<version>/defs.json, definitions.patchset.patch.metadata) admits ARBITRARY value tuples: `values` is an array whose items may be numbers, and no keyword restricts which numbers, how many, or whether coordinates repeat (uniqueItems, min/maxItems, enum, const, contains, not, numeric bounds ...); annotations (description, title, examples, $comment, default) are free", "SCHEMA", floor=1)
     _schema_values(ctx, r8, repo)
+    r9 = ctx.rule("C17.R9", "WORKSPACE-VERBATIM (interpreted, engine shared with C16.R7): the Workspace objects that verify() digests and apply() patches and returns hold the document they were built from verbatim -- Workspace.__init__ through the channel-summary mixin into dict, on a document listed out of name order: same keys, values and LIST ORDERS (the digest and index-addressed JSON-patch paths depend on them)", "SEMANTIC", floor=1)
+    from .c16 import workspace_verbatim
+    workspace_verbatim(ctx, r9, repo)
     from .. import memo
     ctx.extra["memoised_functions_on_the_validation_path"] = memo.check(ctx, r7, ["src/pyhf/schema/validator.py", "src/pyhf/schema/loader.py", "src/pyhf/schema/__init__.py", "src/pyhf/schema/variables.py", "src/pyhf/patchset.py", "src/pyhf/utils.py", "src/pyhf/workspace.py"])
     _semantic(ctx, r6, repo)
